@@ -158,10 +158,21 @@ func (fl *File) Position(idx Idx) *Position {
 	}
 
 	if fl.sm != nil {
-		if f, _, l, c, ok := fl.sm.Source(position.Line, position.Column); ok {
-			position.Filename, position.Line, position.Column = f, l, c
-		}
+		fl.mapPosition(position)
 	}
 
 	return position
+}
+
+// mapPosition translates position through the source map. The map may come
+// from the script itself (a sourceMappingURL trailer) and the consumer indexes
+// its source and name tables unchecked, so a panic there leaves the position
+// unmapped.
+func (fl *File) mapPosition(position *Position) {
+	defer func() {
+		_ = recover()
+	}()
+	if f, _, l, c, ok := fl.sm.Source(position.Line, position.Column); ok {
+		position.Filename, position.Line, position.Column = f, l, c
+	}
 }
